@@ -926,6 +926,28 @@ impl World {
         store_to_value(&dump_persister(&self.persister), self.now())
     }
 
+    /// The velocity controls exactly as they are held live and in the store (not normalised to
+    /// the current time).  Not part of the state comparison of C10 -- the pure passage of time
+    /// may re-shape them -- but part of the search key of the velocity engine, because an
+    /// implementation whose future depends on the stale representation must not be merged away.
+    pub fn raw_velocity(&self) -> String {
+        let live = {
+            let st = self.node.get_state();
+            let entry: NodeStateEntry = (&*st).into();
+            let v = serde_json::to_value(&entry).unwrap();
+            json!([v["velocity_control"], v["fee_velocity_control"]])
+        };
+        let mut stored = vec![];
+        for (k, (_ver, v)) in dump_persister(&self.persister).iter() {
+            if k.starts_with("node/state") {
+                if let Ok(j) = serde_json::from_slice::<Value>(v) {
+                    stored.push(json!([j["velocity_control"], j["fee_velocity_control"]]));
+                }
+            }
+        }
+        json!([live, stored]).to_string()
+    }
+
     pub fn snapshot(&self) -> Value {
         json!({"live": self.snapshot_live(), "store": self.snapshot_store()})
     }
